@@ -42,7 +42,7 @@ type wrec struct {
 
 type stepper struct {
 	rng       *rand.Rand
-	firstSeed map[string]int64 // schema class -> seed of its first write to this segment (twins, gen_test.go)
+	firstSeed map[string]int64 // schema class (classKey) -> seed of its first write to this segment (twins, gen_test.go)
 	seg, peer *vgirpc.ShmSegment
 	unit      int
 	prefill   int
@@ -208,9 +208,14 @@ func (s *stepper) build(args map[string]any, gate string) (g *genBatch, b arrow.
 func (s *stepper) buildOnce(args map[string]any, gate string) (*genBatch, arrow.RecordBatch, error) {
 	sc, rw, md := replay.Str(args, "sc"), replay.Str(args, "rows"), replay.Str(args, "md")
 	n, ex := replay.Int(args, "n"), replay.Int(args, "ex")
+	var cols []string
+	for _, c := range replay.List(args, "cols") {
+		cols = append(cols, fmt.Sprint(c))
+	}
+	key := classKey(sc, cols)
 	target := n * s.unit
 	seed := s.rng.Int63()
-	if first, ok := s.firstSeed[sc]; ok && s.rng.Intn(2) == 0 {
+	if first, ok := s.firstSeed[key]; ok && s.rng.Intn(2) == 0 {
 		twinOf[seed] = first
 		defer delete(twinOf, seed)
 	}
@@ -231,7 +236,7 @@ func (s *stepper) buildOnce(args map[string]any, gate string) (*genBatch, arrow.
 	loR, hiR := 1, 1<<30
 	grown := false
 	for iter := 0; iter < 30; iter++ {
-		g := newGen(sc, rows, md, wantAbove, seed, vgirpc.MetaShmOffset, vgirpc.MetaShmLength)
+		g := newGen(sc, cols, rows, md, wantAbove, seed, vgirpc.MetaShmOffset, vgirpc.MetaShmLength)
 		b0 := g.batch(0)
 		l0 := streamLen(b0, g.stripped)
 		buf := int(vgirpc.VerifBatchBufferSize(b0))
@@ -316,10 +321,10 @@ func (s *stepper) buildOnce(args map[string]any, gate string) (*genBatch, arrow.
 			if got := streamLen(b, g.stripped); got != target {
 				b.Release()
 				g.release()
-				return nil, nil, fmt.Errorf("cannot tune %s/%s to %d bytes: pad %d gives %d", sc, rw, target, pad, got)
+				return nil, nil, fmt.Errorf("cannot tune %s/%s to %d bytes: pad %d gives %d", key, rw, target, pad, got)
 			}
-			if _, ok := s.firstSeed[sc]; !ok {
-				s.firstSeed[sc] = seed
+			if _, ok := s.firstSeed[key]; !ok {
+				s.firstSeed[key] = seed
 			}
 			return g, b, nil
 		}
@@ -328,7 +333,7 @@ func (s *stepper) buildOnce(args map[string]any, gate string) (*genBatch, arrow.
 			break
 		}
 	}
-	return nil, nil, fmt.Errorf("cannot realise class sc=%s rows=%s n=%d ex=%d gate=%q unit=%d: %s", sc, rw, n, ex, gate, s.unit, lastErr)
+	return nil, nil, fmt.Errorf("cannot realise class sc=%s rows=%s n=%d ex=%d gate=%q unit=%d: %s", key, rw, n, ex, gate, s.unit, lastErr)
 }
 
 // ---------------------------------------------------------------- pointer batches
@@ -706,7 +711,7 @@ func (s *stepper) Step(i int, st replay.Step) (replay.Obs, error) {
 
 	case "ResolveNonPointer":
 		kind := replay.Str(st.Args, "kind")
-		g := newGen("plain", 1, "some", true, s.rng.Int63(), vgirpc.MetaShmOffset, vgirpc.MetaShmLength)
+		g := newGen("plain", nil, 1, "some", true, s.rng.Int63(), vgirpc.MetaShmOffset, vgirpc.MetaShmLength)
 		defer g.release()
 		full := g.batch(0)
 		defer full.Release()
